@@ -232,4 +232,6 @@ def random_ctl(rng, prog=None, heavy=False):
             'pct_d': rng.choice([1, 2, 3]), 'timer_bias': rng.choice([0.1, 0.3, 0.7])}
     if prog is not None and rng.random() < 0.25:
         spec['starve'] = {'node': rng.choice(prog['order'])}
+    elif prog is not None and (prog.get('hints') or {}).get('slow') and rng.random() < 0.4:
+        spec['starve'] = {'node': rng.choice(prog['hints']['slow'])}
     return spec
